@@ -1,6 +1,7 @@
 package main
 
 import (
+	"fmt"
 	"go/types"
 
 	"golang.org/x/tools/go/ssa"
@@ -54,6 +55,7 @@ func init() {
 			rulePanic(c, "C01.", fns, pred, ro)
 			ruleNoBlock(c, "C01.", fns, pred)
 			ruleSendOnce(c, "C01.", []*ssa.Function{ro.Handle4, ro.Handle6})
+			ruleStubNonNil(c, "C01.STUBNONNIL", []*ssa.Function{ro.Handle4, ro.Handle6})
 			ruleLockOrder(c, "C01.")
 			c.R.Floor("C01.PANIC", 3)
 			c.R.Floor("C01.ASSERT", 3)
@@ -61,6 +63,7 @@ func init() {
 			c.R.Floor("C01.NILSRC", 12)
 			c.R.Floor("C01.LOCKPAIR", 8)
 			c.R.Floor("C01.SENDONCE", 3)
+			c.R.Floor("C01.STUBNONNIL", 2)
 			c.R.Floor("C01.NOBLOCK", 20)
 			c.R.Floor("C01.LOCKORDER", 4)
 			c.R.Note("scope: %d first-party functions reachable from %d handler roots + 2 Serve loops", len(fns), 2+len(ro.AllHandlers()))
@@ -102,4 +105,36 @@ func allocatorMethods(c *Ctx) []*ssa.Function {
 	}
 	_, fns := ReachFirstParty(c.P, roots)
 	return fns
+}
+
+// ruleStubNonNil: the response handed to the plugin chain is never nil (a
+// typed nil boxed into the DHCPv6 interface included): built-in handlers
+// dereference it without a check.
+func ruleStubNonNil(c *Ctx, rule string, fns []*ssa.Function) {
+	for _, fn := range fns {
+		di := findDispatch(c, fn, "handlers")
+		key := shortFn(fn) + " response handed to the chain"
+		if di.Call == nil || di.Stub == nil {
+			c.R.unk(rule, key, c.P.Pos(fn.Pos()), shortFn(fn), "dispatch loop not recognised")
+			continue
+		}
+		ss := statesAt(c, fn, func(in ssa.Instruction) bool { return in == ssa.Instruction(di.Call) }, nil)
+		bad := ""
+		n := 0
+		for _, st := range ss.Sites[di.Call] {
+			n++
+			// only the first iteration receives the stub; later ones receive a handler's result (CHAIN.RETNIL)
+			if ns, _ := ss.Ex.NilState(st, di.Stub); ns != 0 {
+				bad = fmt.Sprintf("the reply skeleton %s reaches the plugin chain without being shown non-nil (its constructor's error was not found nil on this path): handlers dereference it", shortName(stripAt(ss.Ex.Canon(st, di.Stub).S)))
+			}
+		}
+		if bad != "" || n == 0 {
+			if bad == "" {
+				bad = "handler call not reached"
+			}
+			c.R.bad(rule, key, c.P.InstrPos(di.Call), shortFn(fn), bad)
+		} else {
+			c.R.ok(rule, key, c.P.InstrPos(di.Call), shortFn(fn), fmt.Sprintf("non-nil in all %d abstract states", n))
+		}
+	}
 }
